@@ -5,10 +5,13 @@ from ..wasi import wasi_job
 def make_jobs(ctx):
     src = "c14_path.c"
     jobs = []
-    pms = [16, 24] + ([64] if ctx.tier == "thorough" else [])
+    # unbounded: real PATH_MAX, directory and path strings of every length (library contracts for strlen / memcpy; resolvePath has no loop of its own)
+    jobs.append(wasi_job(ctx, "W.resolvePath.unbounded", "c14_resolve_u.c", "h_resolve_u", ["wasi.c:resolvePath"], defines=["GMEM=8"], unwind=4, solver="z3",
+                         info=dict(note="PATH_MAX = 4096 (the host's value); directory length 1..8192, path length 0..12288, every byte value; ghost position G in the result")))
+    pms = [16, 24] + ([32] if ctx.tier == "thorough" else [])
     for pm in pms:
         jobs.append(wasi_job(ctx, "W.resolvePath.pm%d" % pm, src, "h_resolve", ["wasi.c:resolvePath"], defines=["VH_PATH_MAX=%d" % pm, "GMEM=8"],
-                             unwind=2 * pm + 4, timeout=(900 if pm == 64 else None),
+                             unwind=2 * pm + 4, timeout=(1100 if pm == 32 else None),
                              bounded="PATH_MAX redefined to %d (code uniform in the macro); directory strings 1..PATH_MAX-1, guest paths 0..2*PATH_MAX bytes, all byte values" % pm))
     B = "PATH_MAX = 16, guest paths <= 12 bytes, descriptor paths <= 3 characters, guest memory object of 48 bytes"
     for h, fn in (("h_create_directory", "path_create_directory"), ("h_remove_directory", "path_remove_directory"), ("h_unlink_file", "path_unlink_file"),
